@@ -580,6 +580,11 @@ step_harness!(fdl_step_check_token_pass, 6, |f0, f, phy, now, apps, _n| {
             // a successor that was heard is never removed
             assert!(removed() == 0 && phy.tx_count == 0);
             if phy.n_rx == 0 { assert!(f.state == f0.state); } else { assert!(matches!(f.state, State::ActiveIdle { .. } | State::ListenToken { .. } | State::UseToken { .. })); }
+            // C11.accept (while supervising a pass): a single token offer heard in the slot is accepted at once only from the
+            // predecessor registered BEFORE this poll - also when it comes from the successor the token was just passed to
+            if phy.n_rx == 1 && matches!(f.state, State::UseToken { .. }) {
+                assert!(phy.rx_kind[0] == 1 && phy.rx_da[0] == ts && phy.rx_sa[0] == f0.token_ring.previous_station() && !phy.trailing);
+            }
             // C11.listen: two tokens carrying our own address back to back take the station out of the ring; whatever
             // follows in the same batch (also a token from the predecessor) is only listened to - it stays in ListenToken
             let coll = |i: usize| i < phy.n_rx && phy.rx_kind[i] == 1 && phy.rx_sa[i] == ts;
